@@ -377,6 +377,15 @@ func C03CustomFuncCall() {
 			args = append(args, &Decl{Const: zzS("1"), ResultType: castOf(zz.NondetChoice("cast", 5))})
 		}
 	}
+	if zz.NondetBool("surplusArg") {
+		// more arguments than the function has parameters is not rejected at schema time; the
+		// surplus one may be absent as well
+		if zz.NondetBool("surplusAbsent") {
+			args = append(args, &Decl{XPath: zzS("nope")})
+		} else {
+			args = append(args, &Decl{Const: zzS("9")})
+		}
+	}
 	raw := map[string]*Decl{finalOutput: {Object: map[string]*Decl{
 		"u": {CustomFunc: &CustomFuncDecl{Name: fn, Args: args}},
 	}}}
